@@ -859,7 +859,7 @@ def case_dominion_read_cvrs(rep):
     rep.exhaustive = False
     n_files = 2500 if thorough(rep) else 600
     rep.bound = f"{n_files} generated exports: 1-3 sessions, both layouts, 0-2 contests per block, 0-4 marks per contest over 2 candidates with " \
-                "ranks 0..3 and IsVote T/F in every order, Modified absent / first / second, obfuscated ids; all 16 option settings"
+                "ranks 0..3 and IsVote T/F in every order, Modified absent / first / second, obfuscated ids; all 16 option settings; 40 two-file directories"
     rng = rep.rng
 
     def marks():
@@ -876,6 +876,7 @@ def case_dominion_read_cvrs(rep):
             return {"Cards": cards}
         return {"Contests": cons}
 
+    kept_sessions = []
     for f in range(n_files):
         sessions = []
         layout = rng.choice(["cards", "flat"])
@@ -918,6 +919,29 @@ def case_dominion_read_cvrs(rep):
                         rep.fail("smallest positive rank among counted marks; adjudicated data replace original data per contest", inp, got=a["votes"], expected=b["votes"])
         finally:
             os.unlink(path)
+        kept_sessions.append(sessions)
+    # the directory import: the same options applied to every export of the directory, files in sorted order
+    import shutil
+    for d in range(0, min(len(kept_sessions), 80) - 1, 2):
+        tmpd = tempfile.mkdtemp(prefix="cvrdir")
+        try:
+            for j in (0, 1):
+                with open(os.path.join(tmpd, f"CvrExport_{j}.json"), "w") as fh:
+                    json.dump({"Sessions": kept_sessions[d + j]}, fh)
+            for use_current, enforce, inc, pool in itertools.product((True, False), (True, False), ([], [1]), ([], [2])):
+                inp = {"files": [kept_sessions[d], kept_sessions[d + 1]], "use_current": use_current, "enforce_rules": enforce, "include_groups": inc, "pool_groups": pool}
+                rep.case(("dir", d, use_current, enforce, tuple(inc), tuple(pool)))
+                exp = _dominion_oracle(kept_sessions[d], use_current, enforce, inc, pool) + _dominion_oracle(kept_sessions[d + 1], use_current, enforce, inc, pool)
+                try:
+                    got = Dominion.read_cvrs_directory(tmpd, use_current=use_current, enforce_rules=enforce, include_groups=inc, pool_groups=pool)
+                except Exception as ex:
+                    rep.fail("read_cvrs_directory does not raise", inp, got=type(ex).__name__ + ": " + str(ex)[:80])
+                    continue
+                g = [{"id": c.id, "tally_pool": c.tally_pool, "pool": bool(c.pool), "votes": c.votes} for c in got]
+                if g != [{"id": x["id"], "tally_pool": x["tally_pool"], "pool": x["pool"], "votes": x["votes"]} for x in exp]:
+                    rep.fail("a directory import reads every export with the options given, files in sorted order", inp, got=g, expected=exp)
+        finally:
+            shutil.rmtree(tmpd, ignore_errors=True)
     rep.sample({"session": {"TabulatorId": 1, "BatchId": 7, "RecordId": 100, "CountingGroupId": 2,
                             "Original": {"Contests": [{"Id": 10, "Marks": [{"CandidateId": 5, "Rank": 2, "IsVote": True}, {"CandidateId": 5, "Rank": 1, "IsVote": True}]}]}},
                 "expected_votes": {"10": {"5": 1}}})
@@ -1697,7 +1721,7 @@ def case_irv_predicates(rep):
     from shangrla.core.Audit import CVR, Contest, Assertion
     from shangrla.raire.raire_utils import NEBAssertion, NENAssertion
     rep.bound = "candidate sets of size 3-4 (5 thorough) with numeric ids that are substrings of one another; every partial ranking; every (winner, loser) pair; " \
-                "every eliminated set not containing them"
+                "every eliminated set not containing them; generator-side contest identifier a string and the integer 1"
     for nc in range(3, 6 if thorough(rep) else 5):
         cands = ["1", "2", "12", "21", "121"][:nc]
         con = Contest(id="con", cards=10, candidates=cands, winner=[cands[0]], choice_function="IRV")
@@ -1712,6 +1736,9 @@ def case_irv_predicates(rep):
             for E in sets:
                 js = [{"winner": w, "loser": l, "assertion_type": "IRV_ELIMINATION", "already_eliminated": list(E)}]
                 nens.append((E, list(Assertion.make_assertions_from_json(con, cands, js).values())[0], NENAssertion("con", w, l, list(E))))
+            # the generator keys ballots by whatever identifier the contest carries (its text loader uses the integer 1)
+            neb_i = NEBAssertion(1, w, l)
+            nens_i = [NENAssertion(1, w, l, list(E)) for E in sets]
             for rk in ranks:
                 cvr = CVR(id="b", votes={"con": {c: k + 1 for k, c in enumerate(rk)}})
                 rcvr = {"con": {c: k for k, c in enumerate(rk)}}
@@ -1720,7 +1747,14 @@ def case_irv_predicates(rep):
                 exp = (neb.is_vote_for_winner(rcvr) - neb.is_vote_for_loser(rcvr) + 1) / 2
                 if got != exp:
                     rep.fail("WINNER_ONLY assorter = (w - l + 1)/2 of the generator's NEB verdicts", {"ranking": rk, "winner": w, "loser": l}, got=got, expected=exp)
-                for E, a_asn, nen in nens:
+                rcvr_i = {1: rcvr["con"]}
+                if (neb_i.is_vote_for_winner(rcvr_i), neb_i.is_vote_for_loser(rcvr_i)) != (neb.is_vote_for_winner(rcvr), neb.is_vote_for_loser(rcvr)):
+                    rep.fail("the generator's NEB verdicts do not depend on the type of the contest identifier", {"ranking": rk, "winner": w, "loser": l},
+                             got=[neb_i.is_vote_for_winner(rcvr_i), neb_i.is_vote_for_loser(rcvr_i)], expected=[neb.is_vote_for_winner(rcvr), neb.is_vote_for_loser(rcvr)])
+                for (E, a_asn, nen), nen_i in zip(nens, nens_i):
+                    if (nen_i.is_vote_for_winner(rcvr_i), nen_i.is_vote_for_loser(rcvr_i)) != (nen.is_vote_for_winner(rcvr), nen.is_vote_for_loser(rcvr)):
+                        rep.fail("the generator's NEN verdicts do not depend on the type of the contest identifier", {"ranking": rk, "winner": w, "loser": l, "eliminated": E},
+                                 got=[nen_i.is_vote_for_winner(rcvr_i), nen_i.is_vote_for_loser(rcvr_i)], expected=[nen.is_vote_for_winner(rcvr), nen.is_vote_for_loser(rcvr)])
                     got = a_asn.assorter.assort(cvr)
                     exp = (nen.is_vote_for_winner(rcvr) - nen.is_vote_for_loser(rcvr) + 1) / 2
                     if got != exp:
